@@ -174,6 +174,10 @@ func runTables(c *ctx, which string) error {
 			t := t
 			runTableCase(c, &t, []string{"sr:"}, map[string]int{})
 		}
+		for _, sha := range []bool{false, true} {
+			e := tableCase{cfg: tcfg{SHA256: sha}, min: 1, max: 1}
+			runTableCase(c, &e, nil, map[string]int{})
+		}
 	}
 	n := 250
 	if c.thorough() {
@@ -223,7 +227,18 @@ func runTableCase(c *ctx, t *tableCase, qs []string, hist map[string]int) {
 	args := fmt.Sprintf("%s|%d|%d|%s|%s|%s", t.cfg, t.min, t.max, fmtRefs(t.refs), fmtLogs(t.logs), strings.Join(qs, ","))
 	wres, data := writeTable(t.cfg, t.min, t.max, t.refs, t.logs)
 	parts := []string{wres}
-	if data != nil && !strings.HasPrefix(wres, "empty") {
+	if data != nil && strings.HasPrefix(wres, "empty") {
+		// the header+footer file of an empty table is a valid table: it opens, and every query
+		// (RefsFor included) answers "nothing"
+		rd, ores := openReader(data)
+		parts = append(parts, ores)
+		if rd != nil {
+			for _, q := range []string{"sr:", fmt.Sprintf("sl::%d", ^uint64(0)), "rf:" + strings.Repeat("00", t.cfg.hashSize())} {
+				parts = append(parts, runQuery(rd, q))
+			}
+		}
+		hist["write:empty"]++
+	} else if data != nil {
 		rd, ores := openReader(data)
 		parts = append(parts, ores)
 		if rd != nil {
